@@ -133,10 +133,12 @@ def main():
     import extract_ws
     import extract_http
     import extract_supervise
+    import extract_locks
     GENERATORS.update(extract_layouts.GENERATORS)
     GENERATORS.update(extract_ws.GENERATORS)
     GENERATORS.update(extract_http.GENERATORS)
     GENERATORS.update(extract_supervise.GENERATORS)
+    GENERATORS.update(extract_locks.GENERATORS)
     failed = []
     for name, fn in GENERATORS.items():
         try:
